@@ -259,7 +259,261 @@ def gen_c03(rng, tier):
     return out
 
 
+# ------------------------------------------------------------------------------- C06
+BIT_LENS = [0, 1, 2, 63, 64, 65, 127, 128, 129, 511, 512, 513, 1023, 1024, 1025, 2047, 2048, 4095, 4096, 4097, 8191, 8192, 8193]
+
+
+def bin_queries(c, rng, bits, kind, sweep=True):
+    n = len(bits)
+    ones = sum(bits)
+    if kind == "rsw":
+        c.add("Q len")
+    c.add("Q nones")
+    c.add("Q nzeros")
+    c.add("Q tnzeros")
+    if sweep:
+        c.add("Q getall")
+        c.add("Q rank1all")
+        c.add("Q rank0all")
+        c.add("Q select1all %d" % (ones + 1))
+        c.add("Q select0all %d" % (n - ones + 1))
+    else:
+        for _ in range(80):
+            i = rng.choice([0, n, n + 1, rng.randrange(n + 1)])
+            c.add("Q rank1 %d" % i)
+            c.add("Q rank0 %d" % i)
+            c.add("Q get %d" % i)
+            c.add("Q select1 %d" % rng.choice([0, ones, max(ones - 1, 0), rng.randrange(ones + 1)]))
+            c.add("Q select0 %d" % rng.choice([0, n - ones, max(n - ones - 1, 0), rng.randrange(n - ones + 1)]))
+    for q in ["rank1", "rank0", "select1", "select0", "get"]:
+        c.add("Q %s %d" % (q, MAXU))
+
+
+def gen_c06(rng, tier):
+    out = []
+    k = 0
+    lens = BIT_LENS + sizes(tier, [32767, 32769], [16383, 16385, 32767, 32768, 32769, 65536, 100000, 262145])
+    for n in lens:
+        for kind in ["rsn", "rsw"]:
+            reps = 2 if n < 5000 else 1
+            for _ in range(reps):
+                bits, mix = C.gen_bits(rng, n)
+                sweep = n <= 8193
+                c = Case("c06-%d" % k, tags=dict(kind=kind, n=n, mix=mix, trivial=(n == 0), cost=n * (30 if sweep else 2)))
+                c.add(C.bits_line(kind, rng.choice(["new", "from"]), bits))
+                bin_queries(c, rng, bits, kind, sweep)
+                c.model = n <= 8193
+                out.append(c)
+                k += 1
+    # counts of ones / zeros crossing the hint periods (1024 narrow, 8192 wide)
+    for kind, per in [("rsn", 1024), ("rsw", 8192)]:
+        for tgt in [per - 1, per, per + 1, 2 * per, 2 * per + 1]:
+            for val in [1, 0]:
+                n = tgt + rng.randrange(0, 70)
+                bits = [val] * tgt + [1 - val] * (n - tgt)
+                rng.shuffle(bits) if rng.random() < 0.5 else None
+                c = Case("c06-h%d" % k, tags=dict(kind=kind, n=n, mix="hint-%d-%d" % (tgt, val), cost=n * 3))
+                c.add(C.bits_line(kind, "new", bits))
+                bin_queries(c, rng, bits, kind, sweep=(n <= 9000))
+                c.model = n <= 9000
+                out.append(c)
+                k += 1
+    for kind in ["rsn", "rsw"]:
+        c = Case("c06-default-%s" % kind, tags=dict(kind=kind, n=0, path="default", trivial=True))
+        c.add("NEW %s - default 0 -" % kind)
+        bin_queries(c, rng, [], kind)
+        out.append(c)
+    return out
+
+
+# ------------------------------------------------------------------------------- C07
+def da_bits(rng, groups):
+    """bit vector made of regions: ('d', ones, gap) dense, ('s', ones, gap) sparse ..."""
+    bits = []
+    for (ones, gap) in groups:
+        for _ in range(ones):
+            bits += [0] * rng.randrange(gap // 2, gap + 1) + [1]
+    return bits
+
+
+def gen_c07(rng, tier):
+    out = []
+    k = 0
+    shapes = [
+        [(10, 3)], [(1024, 1)], [(1025, 1)], [(1023, 2)], [(2048, 3)], [(3000, 10)],
+        [(1024, 70)],                      # sparse group (span > 65536)
+        [(1024, 64)],                      # around the threshold
+        [(1024, 70), (1024, 2)],           # sparse then dense
+        [(1024, 2), (1024, 70), (500, 3)],  # dense, sparse, partial dense
+        [(1024, 70), (1024, 70), (1024, 1), (40, 100)],
+        [(1024, 1), (1024, 1), (1024, 66), (1024, 1)],
+        [(100, 700)], [(1500, 90)],
+    ]
+    if tier == "thorough":
+        shapes += [[(1024, rng.choice([1, 2, 60, 64, 66, 80])) for _ in range(6)] for _ in range(8)]
+    for sh in shapes:
+        for invert in [False, True]:
+            bits = da_bits(rng, sh) + [0] * rng.randrange(0, 100)
+            if invert:
+                bits = [1 - b for b in bits]
+            n = len(bits)
+            ones = sum(bits)
+            kind = "darray1" if (invert or rng.random() < 0.7) else "darray0"
+            path = rng.choice(["bits", "new", "pos"]) if not invert else rng.choice(["bits", "new"])
+            c = Case("c07-%d" % k, tags=dict(kind=kind, n=n, ones=ones, shape=str(sh)[:60], invert=invert, path=path, cost=n // 4))
+            if path == "pos":
+                pos = [i for i, b in enumerate(bits) if b]
+                c.add("NEW %s - pos %d %s" % (kind, len(pos), " ".join(map(str, pos))))
+                n = (pos[-1] + 1) if pos else 0
+            else:
+                c.add(C.bits_line(kind, path, bits))
+            for q in ["len", "isempty", "countones", "countzeros"]:
+                c.add("Q " + q)
+            c.add("Q select1all %d" % (ones + 1))
+            if kind == "darray1":
+                c.add("Q select0all %d" % (n - ones + 1))
+            else:
+                c.add("Q select0 0")
+            c.add("Q select1 %d" % MAXU)
+            if n <= 200000:
+                c.add("Q ones")
+                c.add("Q zeroswp %d" % rng.randrange(n + 2))
+            for _ in range(20):
+                c.add("Q get %d" % rng.randrange(n + 2))
+            c.model = n <= 120000
+            out.append(c)
+            k += 1
+    for n in [0, 1, 5, 64, 65, 600]:
+        bits, mix = C.gen_bits(rng, n)
+        for kind in ["darray0", "darray1"]:
+            c = Case("c07-s%d" % k, tags=dict(kind=kind, n=n, mix=mix, trivial=(n == 0)))
+            c.add(C.bits_line(kind, "bits", bits))
+            c.add("Q len")
+            c.add("Q countones")
+            c.add("Q select1all %d" % (sum(bits) + 1))
+            if kind == "darray1":
+                c.add("Q select0all %d" % (n - sum(bits) + 1))
+            c.add("Q getall")
+            c.add("Q ones")
+            c.add("Q zeros")
+            out.append(c)
+            k += 1
+    for kind in ["darray0", "darray1"]:
+        c = Case("c07-default-%s" % kind, tags=dict(kind=kind, n=0, path="default", trivial=True))
+        c.add("NEW %s - default 0 -" % kind)
+        c.add("Q len")
+        c.add("Q select1 0")
+        c.add("Q select0 0")
+        out.append(c)
+    # documented panic: positions not strictly increasing
+    c = Case("c07-nonincr", tags=dict(kind="darray0", path="pos", trivial=True))
+    c.add("NEW darray0 - pos 3 5 5 9")
+    out.append(c)
+    return out
+
+
+# ------------------------------------------------------------------------------- C08
+def gen_c08(rng, tier):
+    out = []
+    for k in range(sizes(tier, 120, 800)):
+        c = Case("c08-%d" % k, tags=dict(kind="bvm"))
+        start = rng.choice(["new", "default", "bits", "pos", "withzeros"])
+        cur = 0
+        if start in ("new", "default"):
+            c.add("NEW bvm - %s 0 -" % start)
+        elif start == "bits":
+            bits, _ = C.gen_bits(rng, rng.choice([1, 63, 64, 65, 500, 512, 513, 700]))
+            c.add(C.bits_line("bvm", "bits", bits))
+            cur = len(bits)
+        elif start == "pos":
+            pos = sorted(rng.sample(range(0, 1200), rng.randrange(0, 30)))
+            c.add("NEW bvm - pos %d %s" % (len(pos), " ".join(map(str, pos))))
+            cur = (pos[-1] + 1) if pos else 0
+        else:
+            z = rng.choice([0, 1, 64, 511, 512, 513, 1000])
+            c.add("NEW bvm - withzeros %d" % z)
+            cur = z
+        nops = rng.randrange(1, sizes(tier, 40, 120))
+        hist = []
+        for _ in range(nops):
+            op = rng.choice(["push", "push", "append", "zeros", "set", "setbits", "extbits", "extpos", "bad"])
+            if op == "push":
+                c.add("OP push %d" % rng.randrange(2)); cur += 1
+            elif op == "append":
+                ln = rng.choice([0, 1, 7, 31, 32, 33, 63, 64])
+                c.add("OP append %d %d" % (rng.getrandbits(ln) if ln else 0, ln)); cur += ln
+            elif op == "zeros":
+                z = rng.choice([0, 1, 5, 63, 64, 65, 300, 512, 600]); c.add("OP zeros %d" % z); cur += z
+            elif op == "set" and cur:
+                c.add("OP set %d %d" % (rng.randrange(cur), rng.randrange(2)))
+            elif op == "setbits" and cur:
+                ln = min(cur, rng.choice([1, 2, 7, 33, 63, 64]))
+                i = rng.choice([0, cur - ln, rng.randrange(cur - ln + 1)])
+                c.add("OP setbits %d %d %d" % (i, ln, rng.getrandbits(ln)))
+            elif op == "extbits":
+                b, _ = C.gen_bits(rng, rng.choice([0, 1, 3, 64, 70])); c.add("OP extbits %s" % ("".join(map(str, b)) or "-")); cur += len(b)
+            elif op == "extpos":
+                ps = [rng.randrange(0, cur + 200) for _ in range(rng.randrange(1, 4))]
+                c.add("OP extpos %s" % " ".join(map(str, ps))); cur = max([cur] + [p + 1 for p in ps])
+            elif op == "bad" and rng.random() < 0.3:
+                # documented panics (precondition violated); the value must stay usable
+                c.add(rng.choice(["OP set %d 1" % (cur + rng.randrange(3)), "OP setbits %d 3 1" % max(cur - 2, 0), "OP append 8 3", "OP setbits 0 2 7" if cur >= 2 else "OP set %d 0" % cur]))
+            hist.append(op)
+            if rng.random() < 0.25:
+                c.add("Q len"); c.add("Q countones"); c.add("Q countzeros")
+        c.tags.update(n=cur, nops=nops, start=start, cost=cur * 20)
+        obs = ["Q len", "Q isempty", "Q countones", "Q countzeros", "Q bits", "Q getall", "Q ones", "Q zeros", "Q getwordall",
+               "Q getword %d" % MAXU, "Q get %d" % MAXU, "Q getbits %d 1" % MAXU, "Q getbits 0 65", "Q getbits 0 0"]
+        for ln in sorted(set([1, 64, rng.randrange(1, 65), rng.randrange(1, 65)])):
+            obs.append("Q getbitsall %d" % ln)
+        for p in [0, cur, cur + 1, cur + 700, rng.randrange(cur + 1)]:
+            obs.append("Q oneswp %d" % p)
+            obs.append("Q zeroswp %d" % p)
+        for o in obs:
+            c.add(o)
+        c.add("ITER iter " + "n" * min(cur + 2, 80) + "l")
+        # conversions, clone, equality
+        c.add("STORE m")
+        c.add("OP toimm")
+        for o in obs:
+            c.add(o)
+        c.add("OP tomut")
+        c.add("EQ m")
+        c.add("CLONE")
+        c.add("EQ m")
+        out.append(c)
+    # two vectors with the same bits built differently compare equal
+    for k in range(sizes(tier, 30, 150)):
+        bits, mix = C.gen_bits(rng, rng.choice([1, 64, 65, 511, 512, 513, 900]))
+        c = Case("c08-eq%d" % k, tags=dict(kind="bv", n=len(bits), mix=mix))
+        c.add(C.bits_line("bvm", "bits", bits))
+        c.add("STORE a")
+        # same content through pushes / positions / zeros+set_bits
+        c.add("NEW bvm - new 0 -")
+        how = rng.choice(["push", "zeros+set", "append"])
+        if how == "push":
+            for b in bits:
+                c.add("OP push %d" % b)
+        elif how == "append":
+            for i in range(0, len(bits), 60):
+                ch = bits[i:i + 60]
+                c.add("OP append %d %d" % (sum(b << j for j, b in enumerate(ch)), len(ch)))
+        else:
+            c.add("OP zeros %d" % len(bits))
+            c.add("OP setbits 0 %d %d" % (min(64, len(bits)), (1 << min(64, len(bits))) - 1))   # overwritten below
+            for i in range(0, len(bits), 64):
+                ch = bits[i:i + 64]
+                c.add("OP setbits %d %d %d" % (i, len(ch), sum(b << j for j, b in enumerate(ch))))
+        c.add("EQ a")
+        c.add("Q countones")
+        out.append(c)
+    return out
+
+
 PROPS = {
+    "C06": dict(gen=gen_c06),
+    "C07": dict(gen=gen_c07),
+    "C08": dict(gen=gen_c08),
     "C02": dict(gen=gen_c02),
     "C03": dict(gen=gen_c03),
     "C13": dict(gen=gen_c13),
@@ -267,4 +521,22 @@ PROPS = {
     "C01": dict(gen=gen_c01),
 }
 
-KNOWN_PREDICATES = {}
+def kf_bvm_get_bits_end(ctx, f):
+    """BitVectorMut::get_bits(i, len) with i + len == n_bits answers None (>= instead of >)"""
+    t = ctx["cmd"]
+    if ctx["kind"] != "bvm" or t[0] != "Q" or t[1] != "getbits":
+        return False
+    # the object must still be a BitVectorMut at this point
+    kind = "bvm"
+    nbits = None
+    for l in ctx["lines"]:
+        if l.startswith("OP toimm"):
+            kind = "bv"
+        if l.startswith("OP tomut"):
+            kind = "bvm"
+    if kind != "bvm" or f.got != "N" or not f.expected.startswith("S"):
+        return False
+    return True
+
+
+KNOWN_PREDICATES = {"bvm_get_bits_end": kf_bvm_get_bits_end}
